@@ -99,9 +99,9 @@ theorem cloneWithPrefixes_serialises (env : Env) (f : Forest) (inv : f.Inv)
   -- in place: the serializer reaches the source
   obtain ⟨sS, hwS, htS⟩ := writable_descend env node r _ _ rest (hser r hr hp) hp
   simp only [erase, writableTree, Bool.and_eq_true, List.all_eq_true] at hwS
-  obtain ⟨⟨hnameS, hattrS⟩, hkidsS⟩ := hwS
+  obtain ⟨⟨⟨hdefS, hnameS⟩, hattrS⟩, hkidsS⟩ := hwS
   have hdS : (Tree.node (.element name) (eraseList Ks)).nsDecls = declsOfKids Ks := nsDecls_erase hs _ Ks
-  rw [hdS] at hnameS hattrS hkidsS
+  rw [hdS] at hdefS hnameS hattrS hkidsS
   -- the clone
   simp only [List.map_cons, List.map_nil, erase, writableTree, Bool.and_eq_true, List.all_eq_true]
   have hdC : (Tree.node (.element name) (eraseList (A ++ New ++ B))).nsDecls = declsOfKids (A ++ New ++ B) :=
@@ -177,7 +177,40 @@ theorem cloneWithPrefixes_serialises (env : Env) (f : Forest) (inv : f.Inv)
           exact stackAlong_sub_inScope _ (erase r) hrmem hok b h hnt.2 (fun e => hnt.1 e.2)
       have hbo := (hord b).mpr hinh
       exact hdecl b hbo (fun x hx e => absurd e (hk x (by rw [hdsrc]; exact hx)))
-  refine ⟨⟨?_, ?_⟩, ?_⟩
+  -- a default namespace in the clone is one in place
+  have hsub := addSpec_decls_sub order A B f1.next hA hB
+  rw [hK'] at hsub
+  have H4 : HasDefault ((FStack.new L0).push (declsOfKids (A ++ New ++ B))).top →
+      HasDefault (sS.push (declsOfKids Ks)).top := by
+    rintro ⟨n, hm, hn⟩
+    refine ⟨n, ?_, hn⟩
+    rw [push_top, mem_fullnameInfoNew] at hm ⊢
+    rcases hm with h | ⟨h, hk⟩
+    · rcases hsub _ h with h' | ⟨h1, h2⟩
+      · left; rw [hdsrc]; exact h'
+      · right
+        refine ⟨?_, fun x hx => h2 x (by rw [← hdsrc]; exact hx)⟩
+        have hinh := (hord _).mp h1
+        unfold Forest.inheritedPrefixes at hinh
+        rw [hpath] at hinh
+        cases rest with
+        | nil => simp at hinh
+        | cons p rest' =>
+          simp only [List.mem_filter] at hinh
+          rw [htS]
+          simp only [FStack.new, FStack.top, List.headD_cons]
+          have hok : ChainOK ((p :: rest').map erase) :=
+            chainOK_of_valid _ _ (fun x hx => hvpath x (by simp [hx]))
+          exact inScope_sub_stackAlong _ _ hok _ hinh.1 (show Env.emptyPrefix ≠ Env.xmlPrefix by decide)
+    · exfalso
+      simp only [FStack.new, FStack.top, List.headD_cons] at h
+      rw [← hL0] at h
+      rcases inScope_single' _ _ h with h' | h'
+      · rw [hdC] at h'
+        exact hk _ h' rfl
+      · have : Env.emptyPrefix = Env.xmlPrefix := congrArg Prod.fst h'
+        exact absurd this (by decide)
+  refine ⟨⟨⟨noDefault_transfer _ _ _ H4 hdefS, ?_⟩, ?_⟩, ?_⟩
   · rw [elementFullname_ok] at hnameS ⊢
     exact name_transfer env U _ _ _ name false H1 H2
       (fun hno => (hunres _).mpr (Or.inl (unresolvedHere_elem env _ name _ hno))) hnameS
@@ -186,7 +219,7 @@ theorem cloneWithPrefixes_serialises (env : Env) (f : Forest) (inv : f.Inv)
     rw [attributeFullname_ok] at this ⊢
     exact name_transfer env U _ _ _ a true H1 H2
       (fun hno => (hunres _).mpr (Or.inl (unresolvedHere_attr env _ name _ a ha hno))) this
-  · exact writableList_transfer env U _ _ _ _ H1 H2 (fun n hn => (hunres n).mpr (Or.inr hn)) hkidsS
+  · exact writableList_transfer env U _ _ _ _ H1 H2 (fun n hn => (hunres n).mpr (Or.inr hn)) H4 hkidsS
 
 end XotModel
 
